@@ -329,6 +329,14 @@ func (r *Result) Finish(verifDir string, known []KnownEntry) int {
 		"checker_cmd":          strings.Join(os.Args, " "),
 		"exhaustive":           true,
 	}
+	if r.Tier == "thorough" {
+		cov["all_obligations"] = r.Obligs
+	}
+	if os.Getenv("ERRLINT_VERBOSE") != "" {
+		for _, o := range r.Obligs {
+			fmt.Printf("  ob %-5v [%s] %s @%s: %s\n", o.OK, o.Rule, o.Construct, o.Pos, o.Detail)
+		}
+	}
 	for k, v := range r.Extra {
 		cov[k] = v
 	}
